@@ -121,7 +121,8 @@ def numeric_unit_lines(draw):
         ln = {"t": "item", "m": draw(S.mnemonic()), "u": digits, "v": value, "d": descr, "p": p}
         p[2] = gap
     if kind == "C":
-        ln["v"] = ln["v"].replace("..", ".")
+        while ".." in ln["v"]:
+            ln["v"] = ln["v"].replace("..", ".")
     return {"kind": kind, "form": "numeric-unit-1blank" if single else "numeric-unit-2blanks", "line": ln}
 
 
